@@ -1,0 +1,54 @@
+//go:build verif
+
+// Machine-checked contracts for package codabar (comment-only; read by /verif/govc).
+package codabar
+
+// ---- the symbol as the standard draws it (EN 798 / USS-Codabar: seven elements per character,
+// narrow = 1 module, wide = 2 modules; generated from the standard's element table, independent of
+// the library's encodingTable): width in modules, module t of character c, the two alphabets
+//@ define cbW(c int) int = (c == 58 || c == 47 || c == 46 || c == 43 || c == 65 || c == 66 || c == 67 || c == 68) ? 10 : 9
+//@ define cbBit(c int, t int) bool = (t == 0) ? (c == 48 || c == 49 || c == 50 || c == 51 || c == 52 || c == 53 || c == 54 || c == 55 || c == 56 || c == 57 || c == 45 || c == 36 || c == 58 || c == 47 || c == 46 || c == 43 || c == 65 || c == 66 || c == 67 || c == 68) : ((t == 1) ? (c == 51 || c == 53 || c == 57 || c == 58 || c == 47 || c == 46) : ((t == 2) ? (c == 48 || c == 49 || c == 50 || c == 52 || c == 45 || c == 36 || c == 43 || c == 65 || c == 67 || c == 68) : ((t == 3) ? (c == 52 || c == 53 || c == 54 || c == 55 || c == 56 || c == 57 || c == 36 || c == 58 || c == 47 || c == 46 || c == 43 || c == 65 || c == 66) : ((t == 4) ? (c == 48 || c == 49 || c == 51 || c == 56 || c == 47 || c == 46) : ((t == 5) ? (c == 49 || c == 50 || c == 52 || c == 53 || c == 54 || c == 55 || c == 45 || c == 58 || c == 43 || c == 67 || c == 68) : ((t == 6) ? (c == 51 || c == 55 || c == 56 || c == 57 || c == 45 || c == 36 || c == 58 || c == 47 || c == 46 || c == 43 || c == 65 || c == 66 || c == 68) : ((t == 7) ? (c == 48 || c == 50 || c == 54 || c == 46) : ((t == 8) ? (c == 48 || c == 49 || c == 50 || c == 51 || c == 52 || c == 53 || c == 54 || c == 55 || c == 56 || c == 57 || c == 45 || c == 36 || c == 58 || c == 47 || c == 43 || c == 66 || c == 67) : ((t == 9) ? (c == 58 || c == 47 || c == 46 || c == 43 || c == 65 || c == 66 || c == 67 || c == 68) : (false))))))))))
+//@ define cbData(c int) bool = (c == 48 || c == 49 || c == 50 || c == 51 || c == 52 || c == 53 || c == 54 || c == 55 || c == 56 || c == 57 || c == 45 || c == 36 || c == 58 || c == 47 || c == 46 || c == 43)
+//@ define cbSS(c int) bool = (c == 65 || c == 66 || c == 67 || c == 68)
+// where character k starts: characters are separated by one narrow space
+//@ specdef cbOff(a map[int]int, k int) int = (k <= 0) ? 0 : (cbOff(a, k-1) + cbW(a[k-1]) + 1)
+// a start letter A-D, any number of 0-9 - $ : / . +, a stop letter A-D
+//@ define cbOK(s string) bool = len(s) >= 2 && cbSS(s[0]) && cbSS(s[len(s)-1]) && (forall k int :: 1 <= k && k < len(s)-1 ==> cbData(s[k]))
+//@ define cbRes(r barcode.Barcode) *utils.base1DCode = asptr(r, "*utils.base1DCode")
+
+// ASSUMED contracts on package regexp (outside the verified code; cross-checked by the bounded
+// stand-in): the only pattern the program compiles is the Codabar one, and replacing its matches in
+// s by "!" yields exactly "!" iff s as a whole is one match (or s is "!" itself).
+//@ func extern regexp.Compile
+//@   requires expr == "[ABCD][0123456789\\-\\$\\:/\\.\\+]*[ABCD]$"
+//@   ensures result0 != nil && result1 == nil
+//@ func extern (*regexp.Regexp).ReplaceAllString
+//@   requires len(repl) == 1 && repl[0] == 33
+//@   ensures (len(result) == 1 && result[0] == 33) == (codabar.cbOK(src) || (len(src) == 1 && src[0] == 33))
+
+// C08/C10/C11: accepted exactly for start letter, data characters, stop letter; the result carries
+// text, kind, colours and, module by module, the standard's characters separated by narrow spaces.
+//@ func EncodeWithColor
+//@   requires len(content) <= 90000000
+//@   ensures (result1 == nil) == cbOK(content)
+//@   ensures (result1 == nil) == (result0 != nil)
+//@   ensures result1 == nil ==> typeis(result0, "*utils.base1DCode") && cbRes(result0).content == content && cbRes(result0).color == color && cbRes(result0).kind == barcode.TypeCodabar
+//@   ensures result1 == nil ==> cbRes(result0).BitList.count == cbOff(bytes(content), len(content)) - 1
+//@   ensures result1 == nil ==> (forall k int, t int :: 0 <= k && k < len(content) && 0 <= t && t < cbW(content[k]) ==> cbRes(result0).BitList.model[cbOff(bytes(content), k) + t] == cbBit(content[k], t))
+//@   ensures result1 == nil ==> (forall k int :: 1 <= k && k < len(content) ==> !cbRes(result0).BitList.model[cbOff(bytes(content), k) - 1])
+//@   loop 1 invariant 0 <= iterpos() && iterpos() <= len(content) && resBits != nil && fresh(resBits) && cbOK(content)
+//@   loop 1 invariant 0 <= cbOff(bytes(content), iterpos()) && cbOff(bytes(content), iterpos()) <= 11 * iterpos()
+//@   loop 1 invariant forall k int :: 0 <= k && k < iterpos() ==> 0 <= cbOff(bytes(content), k) && cbOff(bytes(content), k) + cbW(content[k]) + 1 <= cbOff(bytes(content), iterpos())
+//@   loop 1 invariant resBits.count == ((iterpos() == 0) ? 0 : (cbOff(bytes(content), iterpos()) - 1))
+//@   loop 1 invariant forall k int, t int :: 0 <= k && k < iterpos() && 0 <= t && t < cbW(content[k]) ==> resBits.model[cbOff(bytes(content), k) + t] == cbBit(content[k], t)
+//@   loop 1 invariant forall k int :: 1 <= k && k < iterpos() ==> !resBits.model[cbOff(bytes(content), k) - 1]
+
+// the plain variant: the same symbol, black on white
+//@ func Encode
+//@   requires len(content) <= 90000000
+//@   ensures (result1 == nil) == cbOK(content)
+//@   ensures (result1 == nil) == (result0 != nil)
+//@   ensures result1 == nil ==> typeis(result0, "*utils.base1DCode") && cbRes(result0).content == content && cbRes(result0).color == barcode.ColorScheme16 && cbRes(result0).kind == barcode.TypeCodabar
+//@   ensures result1 == nil ==> cbRes(result0).BitList.count == cbOff(bytes(content), len(content)) - 1
+//@   ensures result1 == nil ==> (forall k int, t int :: 0 <= k && k < len(content) && 0 <= t && t < cbW(content[k]) ==> cbRes(result0).BitList.model[cbOff(bytes(content), k) + t] == cbBit(content[k], t))
+//@   ensures result1 == nil ==> (forall k int :: 1 <= k && k < len(content) ==> !cbRes(result0).BitList.model[cbOff(bytes(content), k) - 1])
